@@ -265,6 +265,8 @@ RANGE_HOUR_FORMS = {
     "H:MM": lambda h, m: "%d:%02d" % (h, m), "HH:MM": lambda h, m: "%02d:%02d" % (h, m),
     "H Uhr": lambda h, m: "%d Uhr" % h if m == 0 else "%d:%02d Uhr" % (h, m),
     "ham": lambda h, m: ("%d%s" if m == 0 else "%d:{:02d}%s".format(m)) % (_h12(h), _ap(h, "am", "pm")),
+    # an end without minutes at all (the resolution may leave the minute unspecified; anchoring must still give :00)
+    "H o'clock": lambda h, m: "%d o'clock" % h if m == 0 else "%d:%02d" % (h, m),
 }
 # contexts: name -> (prefix, how the day is determined).  'morgen' is not used
 # as a context: next to a clock range the library's part-of-day pattern gives
